@@ -12,7 +12,8 @@ pub const TOKENS: &[&str] = &[
     "\"\\u{1234567}\"", "\"\\q\"", "'a'..", "'a'..'b'", "'ab'", "''", "'", "\"", "\"\"", "^", "^\"a\"", "^ \"a\"", "#t =", "#t", "#", "//!", "///", "//", "/*", "*/",
     "/* /* */", "WHITESPACE", "COMMENT", "ANY", "SOI", "EOI", "POP", "PEEK", "DROP", "PEEK_ALL", "POP_ALL", "_", "@", "$", "!", "&", "~", "|", "*", "+", "?", "=",
     "=_{", "={", "a", "a =", "a = { a }", "b = { \"x\" }", "-", "-0", "-1", "0", "é", "🎈", "\u{0}", "\r\n", "\n", " ", "\t", "\\", ",", "ASCII_DIGIT", "LETTER", "self",
-    "PUSH", "PUSHa", "PEEKa", "\u{feff}",
+    "PUSH", "PUSHa", "PEEKa", "\u{feff}", "#PUSHED = ", "#PUSH", "#PUSH_a", "#PEEK = ", "#_ = ", "#a1_ = ", "#1", "# t = ", "#t=#u=", "PUSH_LITERAL", "PUSHED", "PUSH_x = { \"a\" }",
+    "POPx", "ANYa", "_PUSH", "a_PUSH", "'\\u{41}'", "\"\\x41\\n\\t\\0\\'\"", "{ 1 , 2 }", "{,}", "{ }", "PEEK [ 1 .. ]", "PEEK[..-1]", "..", "...", "'a'..='z'", "=", "==",
 ];
 pub const BIGNUMS: &[&str] = &[
     "2147483647", "2147483648", "-2147483648", "-2147483649", "4294967295", "4294967296", "99999999999", "18446744073709551616", "1180591620717411303424", "-99999999999999999999",
